@@ -53,6 +53,14 @@ def _setup(B, cfg):
     sel = cfg.get('selection')
     if sel is not None:
         m.set_population_parameters(sel)
+    if cfg.get('dim_names'):
+        # the dimensions are named after the selection was made (what a
+        # hierarchical likelihood / the controller does); None = back to the
+        # default names
+        dn = None if cfg['dim_names'] == 'default' else [
+            'dim %s' % 'xyz'[d] for d in range(n_dim)]
+        m.set_dim_names(dn)
+        base.set_dim_names(dn)     # (the reference copy of the wrapped model)
     return base, m
 
 
@@ -358,6 +366,16 @@ def jobs(tier):
     # dimension / parameter (de-duplication must not rely on adjacency)
     sep = [[[0, 0], [1, 0], [0, 0]], [[0, 1], [1, 1], [0, 1], [0, 0]],
            [[1, 0], [0, 0], [1, 1], [1, 0]], [[1, 1], [0, 1], [1, 1]]]
+    # the dimensions (re)named after construction / after the selection
+    for k_, (kind, nd, nc, s_) in enumerate((
+            ('gaussian', 2, 2, None), ('pooled', 2, 2, None),
+            ('lognormal_nc', 2, 2, [[0, 1], [1, 0]]),
+            ('gaussian', 2, 3, [[1, 1], [0, 0], [0, 1]]),
+            ('pooled', 2, 1, None), ('truncgauss', 1, 2, None))):
+        for dn in ('named', 'default'):
+            out.append(('cov', 'case_cov', dict(
+                kind=kind, n_dim=nd, n_cov=nc, n_ids=2, selection=s_,
+                dim_names=dn, sample=False), {}))
     for kind in ('gaussian', 'lognormal_nc'):
         for s_ in sep:
             nd = 1 + max(d for _, d in s_)
